@@ -24,3 +24,21 @@ func Nested(t *d.T) {
 	_ = map[string]*d.T{"a": {X: 1},
 		"b": {X: d.Helper()}}
 }
+
+func triple(a, b, c d.T) {}
+
+// Interior: diagnostics on interior lines of expressions that span several lines.
+func Interior() {
+	triple(d.T{X: 1},
+		d.T{X: 2},
+		d.T{X: 3})
+	_ = map[string]d.T{
+		"a": d.T{X: 1},
+		"b": d.T{X: d.Helper()},
+	}
+	_ = []int{
+		d.Helper(),
+		d.OnlyFunc(),
+		0,
+	}
+}
